@@ -102,6 +102,8 @@ pub struct RealOutcome {
     pub kind: Kind,
     pub state: PushState,
     pub error: Option<String>,
+    /// the error's accessors (`is_fatal`, `is_recoverable`, `state()`, `into_state()`) disagree with each other
+    pub accessor_problem: Option<String>,
 }
 
 pub fn classify(r: Result<PushState, Error<PushState, PushInstructionError>>) -> RealOutcome {
@@ -110,15 +112,26 @@ pub fn classify(r: Result<PushState, Error<PushState, PushInstructionError>>) ->
             kind: Kind::Ok,
             state: s,
             error: None,
+            accessor_problem: None,
         },
         Err(e) => {
             let kind = if e.is_recoverable() { Kind::Skip } else { Kind::Fatal };
             let msg = format!("{:?}", e.error());
             use push::error::into_state::IntoState;
+            let mut accessor_problem = None;
+            if e.is_fatal() == e.is_recoverable() {
+                accessor_problem = Some(format!("is_fatal() = {} and is_recoverable() = {}", e.is_fatal(), e.is_recoverable()));
+            }
+            let borrowed = e.state().clone();
+            let state = e.into_state();
+            if borrowed != state {
+                accessor_problem = Some("state() and into_state() give different states".to_string());
+            }
             RealOutcome {
                 kind,
-                state: e.into_state(),
+                state,
                 error: Some(msg),
+                accessor_problem,
             }
         }
     }
